@@ -19,6 +19,7 @@ for fn in sorted(os.listdir(UNITS)):
         if kind == 'let': a, b = rustscan.find_let(src, it, s['key'], s.get('nth', 0))
         elif kind == 'expr': a, b = rustscan.find_expr_after(src, it, s['key'], s.get('nth', 0))
         elif kind == 'call': a, b = rustscan.find_call(src, it, s['key'], s.get('nth', 0))
+        elif kind == 'body': a, b = it.body_open + 1, it.body_close
         elif kind == 'callat':
             ms = list(re.finditer(s['key'], rustscan.mask(src)[it.body_open:it.body_close])); m = ms[s.get('nth', 0)]
             a = it.body_open + m.start(); b = rustscan.match_brace(rustscan.mask(src), it.body_open + m.end() - 1) + 1
